@@ -3,6 +3,7 @@
 package main
 
 import (
+	"strconv"
 	"encoding/json"
 	"flag"
 	"fmt"
@@ -14,6 +15,7 @@ import (
 
 	"verif/explore"
 	"verif/hx"
+	"verif/vrt"
 )
 
 func main() {
@@ -35,7 +37,14 @@ func main() {
 		}
 		return
 	}
-	debug.SetGCPercent(400)
+	gcp := 100
+	if vrt.RaceEnabled {
+		gcp = 50 // ThreadSanitizer multiplies the footprint of every heap byte
+	}
+	if v, err := strconv.Atoi(os.Getenv("VERIF_GOGC")); err == nil && v > 0 {
+		gcp = v
+	}
+	debug.SetGCPercent(gcp)
 	explore.MemCapBytes = *memcap
 	ctx := &hx.Ctx{Prop: *prop, Tier: *tier, Shard: *shard, Of: *of, Seed: *seed, Deadline: time.Now().Add(*budget), OnlyUnit: *only,
 		Out: &hx.ShardOut{Property: *prop, Tier: *tier, Shard: *shard, Of: *of}}
